@@ -14,6 +14,9 @@ import MM.Model.C19
     withdraw|advertise <net> <self|1|2|3> <k>    -> ok    a ROUTE_WITHDRAW / ROUTE_ADVERTISE for <net> received from peer k
                                                           naming this agent / peer n as origin (changes the routing TABLE only)
     peerdown <k> | stale                         -> ok    peer-disconnect clean-up / stale-route expiry
+    sched <add|remove> <net>                     -> t1 <res> t2 <res> dyn <keys>   two concurrent ManageRoute calls on <net> in a fixed
+                                                          schedule: T1 is held between its two steps while T2 (the opposite action) runs
+    race <net> <k> <n>                           -> ok dyn <keys>   k goroutines x n times (add; remove) of <net>, concurrently
     open i:<iphex>                               -> dial <ip> | denied | dialfail (dial attempted, connection failed)
     open n:<namehex>:<resolved iphex|->          -> dial <ip> | denied | unresolved | dialfail
     state                                        -> dyn <key>=<metric>,..|- allowed <key>,..|-|none
@@ -90,6 +93,27 @@ def step (s : St) (line : String) : St × String :=
   | ["state"] => (s, showState s)
   -- peer traffic, disconnect clean-up and expiry act on the routing TABLE; the manager's
   -- local/dynamic maps and the exit handler's allow list — all that C19 depends on — are untouched
+  -- ManageRoute is serialized: the held call T1 takes effect first, then T2
+  | ["sched", which, n] =>
+    match parseNet n with
+    | some net =>
+      let sh (o : Outcome) : String := match o with
+        | .ok => "ok" | .errConfigRoute => "err-config-route" | .errNotFound => "err-not-found"
+      if which = "add" then
+        let r1 := add s net 5
+        let r2 := remove r1.1 net
+        (r2.1, s!"t1 {sh r1.2} t2 {sh r2.2} dyn {showDynKeys r2.1}")
+      else
+        let r1 := remove s net
+        let r2 := add r1.1 net 7
+        (r2.1, s!"t1 {sh r1.2} t2 {sh r2.2} dyn {showDynKeys r2.1}")
+    | none => (s, "bad-op")
+  -- every goroutine ends with a remove: whatever the interleaving of the (atomic) calls, the
+  -- network is not a dynamic route afterwards (a config route is never touched)
+  | ["race", n, _, _] =>
+    match parseNet n with
+    | some net => let r := remove s net; (r.1, "ok dyn " ++ showDynKeys r.1)
+    | none => (s, "bad-op")
   | ["withdraw", _, _, _] => (s, "ok")
   | ["advertise", _, _, _] => (s, "ok")
   | ["peerdown", _] => (s, "ok")
@@ -127,7 +151,7 @@ def specStep (s : SpecSt) (l : String) : SpecSt × String :=
       match parseList parseNet nets, parseList bytesOfHex pats with
       | some ns, some ps => ({ exitEnabled := ex = "1", cfgNets := ns, pats := ps, present := [] }, "ok")
       | _, _ => (s, "fail unparsable-op")
-    | "add" :: _ | "remove" :: _ =>
+    | "add" :: _ | "remove" :: _ | "sched" :: _ | "race" :: _ =>
       -- whatever the API answered (success or error): the dynamic routes present are the ones the
       -- routing manager lists afterwards
       match (tokens out).reverse with
